@@ -408,7 +408,7 @@ def _project_convexity(heights, lengths, convexity, constraint_group):
 
   num_heights = heights.shape.dims[0].value
   # To avoid broadcasting when performing math ops with 'heights'.
-  lengths = tf.cast(tf.reshape(lengths, shape=(-1, 1)), dtype=heights.dtype)
+  lengths = tf.reshape(lengths, shape=(-1, 1))
 
   # Split heigths and lengths into pairs which correspond to given constraint
   # group. In order to do this we need to split heights into odd and even. We
@@ -524,6 +524,8 @@ def project_all_constraints(weights,
   """
   bias = weights[0:1]
   heights = weights[1:]
+  if lengths is not None:
+    lengths = tf.cast(lengths, dtype=weights.dtype)
 
   def body(projection_counter, bias, heights, last_bias_change,
            last_heights_change):
